@@ -319,9 +319,9 @@ func realContextsOracle(ctx *common.Ctx) {
 					for _, f := range vio {
 						f()
 					}
-				case <-time.After(20 * time.Second):
+				case <-time.After(40 * time.Second):
 					hung++
-					ctx.Violate("real-context-ignored:"+k.name+":"+src, fmt.Sprintf("a cancelled %s context is not observed by `%s`: the call of Next has not returned 20 s after the cancellation", k.name, src),
+					ctx.Violate("real-context-ignored:"+k.name+":"+src, fmt.Sprintf("a cancelled %s context is not observed by `%s`: the call of Next has not returned 40 s after the cancellation", k.name, src),
 						map[string]any{"context": k.name, "query": src, "moment": moment, "history": "ctx := the named context; it := code.RunWithContext(ctx, nil); `moment` calls of Next; cancel; Next"})
 				}
 			}
